@@ -321,11 +321,22 @@ func WriteL2Replay(dir string, spec *KernelSpec, cex KernelCex, corpusPkg string
 
 import (
 	"fmt"
+	"runtime"
 	"testing"
 )
 
 func TestVerifReplay(t *testing.T) {
+	// the model's job order is one legal schedule of the real scheduler; the
+	// replay cannot force it, so it alternates between all processors and a
+	// single one (where workers start their jobs late)
+	procs := runtime.GOMAXPROCS(0)
+	defer runtime.GOMAXPROCS(procs)
 	for attempt := 1; attempt <= 300; attempt++ {
+		if attempt%%2 == 0 {
+			runtime.GOMAXPROCS(1)
+		} else {
+			runtime.GOMAXPROCS(procs)
+		}
 		verifReset()
 		%s()
 		if len(verifFailed) > 0 {
